@@ -43,7 +43,10 @@ func gen(g *vh.Gen) {
 	// refusal storms: many oversized blocks refused in a row on one server, then a message that fits
 	for i := 0; i < g.N(3, 60); i++ {
 		c, pool := smtpd.GenCfg(g, o)
-		stream := smtpd.GenStorm(g, &c, pool, g.Pick2(11, 12, 17, 33))
+		// counts spread over orders of magnitude, the large ones first so that the quick tier has them: a threshold somebody
+		// hides in the server is not going to be the one an earlier check was tuned to
+		ks := []int{130, 12, 41, 300, 17, 65, 33, 11, 1000}
+		stream := smtpd.GenStorm(g, &c, pool, ks[i%len(ks)])
 		g.Emit("smtp", append(c.Fields(), vh.H(stream))...)
 	}
 }
@@ -70,7 +73,7 @@ func genAsm(g *vh.Gen) {
 	}
 	for i := 0; i < g.N(2, 30); i++ {
 		c, pool := smtpd.GenCfg(g, o)
-		stream := smtpd.GenStorm(g, &c, pool, g.Pick2(11, 13, 21))
+		stream := smtpd.GenStorm(g, &c, pool, []int{70, 13, 21, 150, 11}[i%5])
 		c.Store = g.Pick("mem", "file", "mem::4")
 		g.Emit("asmr", append(c.Fields(), vh.H(stream))...)
 	}
